@@ -107,6 +107,20 @@ theorem sa_process_never_panics (sort : List MultiSA.Result → List MultiSA.Res
   rw [sa_process_total] at h
   cases h
 
+/-- `DecodeMultiple` after `DetectMulti` (decode every located symbol, skip the undecodable ones, merge the
+    structured-append parts) never panics, for every list of decoder outcomes and every sort -/
+theorem multi_decode_total (sort : List MultiSA.Result → List MultiSA.Result) (drs : List (Option MultiSA.DecRes × Nat)) :
+    ∃ out, MultiSA.decodeMultiple sort drs = .ok out := by
+  unfold MultiSA.decodeMultiple
+  simp only []
+  split
+  · rw [sa_process_total]; exact ⟨_, rfl⟩
+  · exact ⟨_, rfl⟩
+
+example : MultiSA.decodeMultiple MultiSA.sortBySeq
+    [(some ⟨[66], [2], none, true, some (1, 7)⟩, 3), (none, 4), (some ⟨[65], [1], some [[9]], true, some (0, 7)⟩, 4)]
+    = .ok [⟨[65, 66], [1, 2], 0, [(2, .segs [[9]])]⟩] := by decide
+
 -- three parts arriving as 2, 0, 1 with a plain result in between; a wrongly typed sequence value counts as 0
 example : MultiSA.process MultiSA.sortBySeq
     [⟨[67], [3], 4, [(9, .int 2)]⟩, ⟨[88], [9], 3, []⟩, ⟨[65], [1], 4, [(2, .segs [[7], []]), (9, .other "string")]⟩,
